@@ -24,6 +24,8 @@ type Extractor struct {
 	depth           map[*ssa.Function]int
 	NoInline        map[string]bool // short names never inlined
 	cloFn           map[AtomID]*ssa.MakeClosure
+	cloFC           map[AtomID]*FC // the context that created the closure
+	BenignWriteTags map[string]bool
 	phiOf           map[AtomID]*ssa.Phi
 	phiFC           map[AtomID]*FC
 	memphiOf        map[AtomID]memphiInfo
@@ -33,7 +35,7 @@ type Extractor struct {
 
 func NewExtractor(w *World, eff *Effects) *Extractor {
 	return &Extractor{W: w, S: NewSym(), Eff: eff, depth: map[*ssa.Function]int{}, NoInline: map[string]bool{},
-		cloFn: map[AtomID]*ssa.MakeClosure{}, phiOf: map[AtomID]*ssa.Phi{}, phiFC: map[AtomID]*FC{}, memphiOf: map[AtomID]memphiInfo{}, fcCache: map[*ssa.Function]*FC{}, MaxInlineBlocks: 14}
+		cloFn: map[AtomID]*ssa.MakeClosure{}, cloFC: map[AtomID]*FC{}, BenignWriteTags: map[string]bool{}, phiOf: map[AtomID]*ssa.Phi{}, phiFC: map[AtomID]*FC{}, memphiOf: map[AtomID]memphiInfo{}, fcCache: map[*ssa.Function]*FC{}, MaxInlineBlocks: 14}
 }
 
 // Assumption: either an equality atom := value, or a condition with a truth value.
@@ -592,8 +594,17 @@ func (fc *FC) val(v ssa.Value) *RF {
 	case *ssa.MakeMap:
 		return s.Var(fmt.Sprintf("makemap:%s:%s", x.W.FuncName(fc.Fn), v.Name()), false)
 	case *ssa.MakeClosure:
-		r := s.Var("closure:"+x.W.FuncName(v.Fn.(*ssa.Function)), false)
+		// a closure created by an inlined instance is keyed by the instance's arguments
+		var r *RF
+		if len(fc.bindArgs) > 0 {
+			r = s.Fn("closure:"+x.W.FuncName(v.Fn.(*ssa.Function)), fc.bindArgs...)
+		} else {
+			r = s.Var("closure:"+x.W.FuncName(v.Fn.(*ssa.Function)), false)
+		}
 		x.cloFn[r.SingleAtom().ID] = v
+		if _, ok := x.cloFC[r.SingleAtom().ID]; !ok {
+			x.cloFC[r.SingleAtom().ID] = fc
+		}
 		return r
 	case *ssa.Range:
 		return s.MakeFn("range", fc.Val(v.X))
@@ -704,8 +715,26 @@ func (fc *FC) defKind(in ssa.Instruction, c cellKey) int {
 				return 3
 			}
 			if sum := fc.X.Eff.Summary(f); sum != nil {
+				// the callee's writes are tagged with the field written: a
+				// field cell is clobbered only by a write of that field (or an
+				// untyped one)
+				prefix, ftag := "", ""
+				if pt, ok := c.base.Type().Underlying().(*types.Pointer); ok && c.field >= 0 {
+					if st, ok := pt.Elem().Underlying().(*types.Struct); ok && c.field < st.NumFields() {
+						if n, ok := pt.Elem().(*types.Named); ok {
+							prefix = fc.X.W.relPkg(n.Obj().Pkg()) + "." + n.Obj().Name() + "."
+							ftag = prefix + st.Field(c.field).Name()
+						}
+					}
+				}
 				for k := range sum.Writes {
 					if k.O.K == KParam && k.O.Idx == i && !k.O.Deep {
+						if ftag != "" && strings.HasPrefix(k.Tag, prefix) && k.Tag != ftag {
+							continue
+						}
+						if fc.X.BenignWriteTags[k.Tag] {
+							continue
+						}
 						return 3
 					}
 				}
@@ -872,7 +901,7 @@ func (fc *FC) defValue(c cellKey, cellType types.Type, d ssa.Instruction) *RF {
 		st := d.(*ssa.Store)
 		return fc.X.fieldOf(fc.Val(st.Val), st.Val.Type(), c.field)
 	}
-	return fc.X.S.Var(fmt.Sprintf("clobber:%s:%s", fc.X.W.InstrPos(d), c.base.Name()), false)
+	return fc.X.S.Var(fmt.Sprintf("clobber:%s:%s.%d", fc.X.W.InstrPos(d), c.base.Name(), c.field), false)
 }
 
 // mergeAt: the gating function of a merge at block j. valOf gives the value
@@ -1445,7 +1474,7 @@ func (x *Extractor) inline(f *ssa.Function, args []*RF, parent *FC) *RF {
 		// atoms (keyed by the actual arguments), whose recurrences remain
 		// available to the caller's obligations
 		if x.Eff != nil {
-			if sum := x.Eff.Summary(f); sum != nil && len(sum.Writes) > 0 {
+			if !x.pureForInline(f) {
 				return nil
 			}
 		}
@@ -1467,7 +1496,7 @@ func (x *Extractor) inline(f *ssa.Function, args []*RF, parent *FC) *RF {
 	}
 	// effects: only pure helpers are inlined (no stores to non-local memory)
 	if x.Eff != nil {
-		if sum := x.Eff.Summary(f); sum != nil && len(sum.Writes) > 0 {
+		if !x.pureForInline(f) {
 			return nil
 		}
 	}
@@ -1605,4 +1634,41 @@ func (fc *FC) BoundCallees(depth int) []*FC {
 	}
 	walk(fc, depth)
 	return out
+}
+
+// ClosureFC: a context for the body of the closure denoted by atom id, its
+// free variables resolved in the context that created it.
+func (x *Extractor) ClosureFC(id AtomID) *FC {
+	mc, ok := x.cloFn[id]
+	if !ok {
+		return nil
+	}
+	cf := mc.Fn.(*ssa.Function)
+	parent := x.cloFC[id]
+	if parent == nil || len(parent.bindArgs) == 0 {
+		return x.FCFor(cf)
+	}
+	fc := x.newFC(cf, nil, nil)
+	fc.Parent = parent
+	return fc
+}
+
+// pureForInline: f writes no caller-visible memory, except under the write
+// tags a property declares benign for its extraction (BenignWriteTags; e.g.
+// the idempotent lazy fill of KDE.Bandwidth, every reader of which goes
+// through prepare()).
+func (x *Extractor) pureForInline(f *ssa.Function) bool {
+	if x.Eff == nil {
+		return true
+	}
+	sum := x.Eff.Summary(f)
+	if sum == nil {
+		return true
+	}
+	for k := range sum.Writes {
+		if !x.BenignWriteTags[k.Tag] {
+			return false
+		}
+	}
+	return true
 }
